@@ -110,7 +110,7 @@ import os, subprocess, tempfile
 VERIF = os.path.dirname(os.path.dirname(os.path.abspath(__file__)))
 
 
-def capture_sql(repo, filter_cases=None):
+def capture_sql(repo, filter_cases=None, page_cases=None):
     """runs harness/sqlcap/sqlcap_test.go as an overlay test of internal/storage/ledger in `repo`; returns the records.
     With filter_cases (list of dicts: id, resource, filter, pit, oot, insertionDate, features, alone, op) the statements
     for those filter ASTs are captured instead."""
@@ -128,6 +128,11 @@ def capture_sql(repo, filter_cases=None):
             json.dump(filter_cases, open(fin, "w"))
             env["VERIF_SQLCAP_FILTERS"] = fin
             test = "^TestVerifSQLCapFilters$"
+        if page_cases is not None:
+            fin = os.path.join(d, "pages.json")
+            json.dump(page_cases, open(fin, "w"))
+            env["VERIF_SQLCAP_PAGES"] = fin
+            test = "^TestVerifSQLCapPages$"
         p = subprocess.run(["go", "test", "-vet=off", "-count=1", "-overlay", ov, "-run", test, "./internal/storage/ledger/"],
                            cwd=repo, env=env, capture_output=True, text=True, timeout=900)
         if p.returncode != 0 or not os.path.exists(out):
